@@ -46,7 +46,7 @@ class Gen:
     """layout: 0 canonical, 1 mild, 2 wild.  crlf: line endings.  profile: weights of item kinds."""
 
     def __init__(self, g, layout=1, crlf=False, p_doc=0.5, max_depth=3, max_items=6, malformed=0.0,
-                 weights=None, doc_lines=None, idents=None, lg=None, doc_blocks=None, p_gap=0.12):
+                 weights=None, doc_lines=None, idents=None, lg=None, doc_blocks=None, p_gap=0.12, p_docimpl=0.0):
         # g decides the module's content (its token sequence); lg decides only the layout, so the same content seed
         # with different layout seeds yields layout variants of one module
         self.g = g; self.lg = lg if lg is not None else g; self.layout = layout; self.crlf = crlf; self.p_doc = p_doc; self.max_depth = max_depth
@@ -54,7 +54,7 @@ class Gen:
         self.weights = weights or {}
         self.doc_lines = doc_lines or DOC_LINES
         self.doc_blocks = doc_blocks
-        self.p_gap = p_gap
+        self.p_gap = p_gap; self.p_docimpl = p_docimpl
         self.idents = idents or IDENTS
         self.n_items = 0
 
@@ -223,7 +223,7 @@ class Gen:
                     continue
             if isinstance(it, dict) and it['k'] == 'decl' and g.random() < self.p_gap:
                 out += self.split_decl(it, depth, in_class)
-            elif isinstance(it, dict) and it['k'] == 'decl' and self.malformed and g.random() < self.malformed:
+            elif isinstance(it, dict) and it['k'] == 'decl' and ((self.malformed and g.random() < self.malformed) or (self.p_docimpl and g.random() < self.p_docimpl)):
                 # outside the properties' quantifier (malformed stream, correspondence only): the implementing definition
                 # carries a doccomment of its own
                 out += [dict(k='cmd', doc=it['doc'], call=it['decl']),
@@ -408,15 +408,17 @@ def all_arg_texts(m):
     return out
 
 
-def well_formed(m):
+def well_formed(m, documented_impl=False):
     """the hypotheses of the structural theorems: balanced blocks by construction, valid arities, declarations inside
-    the right context, no K2 name; returns (ok, reason)"""
+    the right context, no K2 name; returns (ok, reason).  documented_impl=True also admits an implementing definition that
+    carries a doccomment of its own (the property text can be read either way about that definition's own entry, see
+    spec_entries(reading=...))"""
     def rec(items, in_class):
         pending = None       # a declaration written as a plain command, waiting for its definition
         for it in items:
             k = it['k']
             if pending is not None:
-                if k == 'block' and cname(it['open']) in ('function', 'macro') and it.get('doc') is None:
+                if k == 'block' and cname(it['open']) in ('function', 'macro') and (documented_impl or it.get('doc') is None):
                     if len(singles(it['open'])) < 1: return 'impl arity'
                     if cname(it['close']) not in ('endfunction', 'endmacro'): return 'closer'
                     r = rec(it['body'], False)
@@ -468,9 +470,12 @@ def cpa_direct(body):
     return False
 
 
-def spec_entries(m, cfg):
+def spec_entries(m, cfg, reading='B'):
     """expected `documented` for a well-formed module under cfg = {'incl','trigger','regex'}.
-    Returns None when the module is in the K1 region (documented class with include_undocumented_cpp_class off)."""
+    Returns None when the module is in the K1 region (documented class with include_undocumented_cpp_class off).
+    reading: what an implementing definition with a doccomment of its own contributes -- 'A': its own documented entry ("every
+    other command that carries a doccomment"), 'B': nothing of its own ("the definition that implements the preceding declaration
+    produces no entry"); it implements the declaration under both."""
     incl = {f: cfg.get('incl', {}).get(f, True) for f in FLAGS}
     trigger = cfg.get('trigger', ':param **kwargs:')
     rx = cfg.get('regex', {})
@@ -508,7 +513,11 @@ def spec_entries(m, cfg):
             if k == 'dangling': continue
             if pending is not None and k == 'block' and cname(it['open']) in ('function', 'macro'):
                 was = pending; pending = None
-                if was == 'hidden' and incl[cname(it['open'])]: out.append(fn_entry(cname(it['open']), it['open'], None, it['body'], False))
+                if documented and reading in ('A', 'A2'):
+                    e = fn_entry(cname(it['open']), it['open'], d, it['body'], True)
+                    if reading == 'A2': e['kw'] = trigger in doc_text(d)       # cmake_parse_arguments in its body credited to the declaration instead
+                    out.append(e)
+                elif was == 'hidden' and incl[cname(it['open'])]: out.append(fn_entry(cname(it['open']), it['open'], None, it['body'], False))
                 rec(it['body'], cls); continue
             if k == 'cmd' and cname(it['call']) in DECLS:
                 j = idx + 1      # the implementing definition further down this list
